@@ -17,6 +17,9 @@ def insertT (e : Param × Int) : Terms → Terms
 /-- canonical form: zero entries removed, sorted by key -/
 def Terms.norm (t : Terms) : Terms := (t.filter (·.2 != 0)).foldr insertT []
 
+/-- `Counter(d)`: entries with equal keys are summed (a provider's dict has unique keys, so this is the identity there) -/
+def Terms.merged (t : Terms) : Terms := t.foldl (fun acc e => acc.addAt e.1 e.2) []
+
 structure Child where
   names : List String                      -- child.extra_parameters
   emap  : List (String × String)           -- extra_parameters[i] : parent var ↦ child var (dict order)
@@ -52,7 +55,8 @@ def unionTerms (parent : List String) (cs : List Child) (n : Nat) : Option Terms
       let k ← paramMapSame (childPosToParentPos parent c) parent.length e.1
       pure (acc.addAt k e.2)) acc) []
 
-/-- `Complement.get_terms`: `sub` = [original parent, other children…] -/
+/-- `Complement.get_terms` (as repaired: the siblings are subtracted in the parent's coordinates, what is
+left is re-keyed into the flipped child's coordinates): `sub` = [original parent, other children…] -/
 def complementTerms (parent : List String) (cs : List Child) (idx : Nat)
     (parentTerms : Nat → Terms) (n : Nat) : Option Terms := do
   let flipped := cs.getD idx ⟨[], [], 0, none, fun _ => []⟩
@@ -62,17 +66,16 @@ def complementTerms (parent : List String) (cs : List Child) (idx : Nat)
     | some e => [posOf flipped.names e.2]
     | none => [])
   let toChild (p : Param) := paramMapSame p2c flipped.names.length p
-  let acc ← (parentTerms n).foldlM (fun (acc : Terms) e => do
+  let others := (cs.zipIdx.filter (·.2 != idx)).map (·.1)
+  let remaining ← others.foldlM (fun (acc : Terms) c =>
+    (c.terms n).foldlM (fun (acc : Terms) e => do
+      let k ← paramMapSame (childPosToParentPos parent c) parent.length e.1
+      let acc := acc.addAt k (-e.2)
+      if ((acc.find? (·.1 == k)).map (·.2)).getD 0 < 0 then none else pure acc) acc) (parentTerms n).merged
+  remaining.foldlM (fun (acc : Terms) e => do
       if e.2 == 0 then pure acc else
       let k ← toChild e.1
       pure (acc.addAt k e.2)) []
-  let others := (cs.zipIdx.filter (·.2 != idx)).map (·.1)
-  others.foldlM (fun (acc : Terms) c =>
-    (c.terms n).foldlM (fun (acc : Terms) e => do
-      let pk ← paramMapSame (childPosToParentPos parent c) parent.length e.1
-      let k ← toChild pk
-      let acc := acc.addAt k (-e.2)
-      if ((acc.find? (·.1 == k)).map (·.2)).getD 0 < 0 then none else pure acc) acc) acc
 
 /-- all ways to pick one entry from each list (itertools.product) -/
 def cartesian {α : Type} : List (List α) → List (List α)
